@@ -328,6 +328,12 @@ def random_cfg(rng: random.Random, profile: str) -> dict:
                    init={s: rng.choice([0, 0, rng.randint(1, 50), rng.randint(50, 900)]) for s in syms},
                    feeMode=fee, liqMode=liq, lendMode=lend, cond={s: no_cond() for s in syms},
                    reindexEvery=rng.choice([50, 50, 2, 3, 7]))
+    if profile == "slip":
+        # slippage stress: share liquidity with a large price impact, orders comparable to the bar's liquidity, ample funds
+        cfg["liqMode"], cfg["lendMode"] = "share", "none"
+        cfg["init"] = {s: rng.randint(5000, 9000) * cfg["scale"][s] // max(1, cfg["scale"][s] // 10) for s in syms}
+        cfg["slip"] = True
+        liq, lend = "share", "none"
     if fee == "pct":
         cfg["feeN"], cfg["feeD"] = rng.choice([(0, 1), (1, 1000), (25, 10000), (1, 100), (1, 10), (999, 1000)])
         cfg["minFeeN"], cfg["minFeeD"] = rng.choice([(0, 1), (0, 1), (1, 200), (1, 2), (3, 1)])
@@ -335,6 +341,9 @@ def random_cfg(rng: random.Random, profile: str) -> dict:
         cfg["vlN"], cfg["vlD"] = rng.choice([(1, 4), (1, 10), (1, 2), (3, 20), (1, 1), (0, 1)])  # terminating decimals only: the code works in Decimal
         cfg["vs"] = rng.choice([1, 1, 10])
         cfg["impactPct"] = rng.choice([0, 0, 10, 25, 100])          # price impact constant (percent); 10 is the library default
+        if cfg.get("slip"):
+            cfg["impactPct"] = rng.choice([10, 50, 100])
+            cfg["vlN"], cfg["vlD"], cfg["vs"] = rng.choice([(1, 2), (1, 1), (1, 4)]) + (1,)
         cfg["impact"] = cfg["impactPct"] > 0
     if lend == "margin" and rng.random() < 0.2:
         # dust equity against huge loans: the margin level is a tiny positive number (0.00..% once rounded)
@@ -384,6 +393,8 @@ class Driver:
                     px[p] = c
                     bs = cfg["scale"][cfg["pairs"][p - 1]["b"]]
                     v = rng.choice([0, rng.randint(1, 40), rng.randint(1, 400), rng.randint(100, 4000)]) * rng.choice([1, bs])
+                    if cfg.get("slip"):
+                        v = rng.randint(20, 120)
                     self.bars.append({"kind": "bar", "arg": {"p": p, "t": t, "o": o, "h": h, "l": l, "c": c, "v": v}})
         self.ncalls = {}
 
@@ -425,7 +436,7 @@ class Driver:
         p = rng.randint(1, len(cfg["pairs"]))
         pr = cfg["pairs"][p - 1]
         pd = cfg["scale"][pr["b"]] * cfg["pm"]
-        ty = rng.choice(["market", "limit", "limit", "stop", "stoplimit"])
+        ty = rng.choice(["market", "limit", "limit", "stop", "stoplimit"] + (["stoplimit", "stoplimit"] if cfg.get("slip") else []))
         op = rng.choice(["buy", "sell"])
         ref = last.get(p, 0)
         pm = cfg["pm"]
@@ -444,6 +455,18 @@ class Driver:
             a = rng.choice([a0, a0 + 1, max(1, a0 - 1), max(1, a0 // 2), rng.randint(1, 30)])
         else:
             a = rng.randint(1, 30)
+        if cfg.get("slip"):
+            # a good part of the bar's liquidity, prices within a few ticks of the last close
+            a = rng.randint(5, 60)
+            if ty in ("limit", "stoplimit"):
+                limit = max(pm, (ref + rng.randint(-6, 6) * pm) // pm * pm) if ref else limit
+            if ty in ("stop", "stoplimit"):
+                stop = max(pm, (ref + rng.randint(-6, 6) * pm) // pm * pm) if ref else stop
+            if ty == "stoplimit" and ref and rng.random() < 0.6:
+                # the stop is reached first while the limit is still out of the bar's range (the latch), fills come later
+                sgn = 1 if op == "buy" else -1
+                stop = max(pm, (ref + sgn * rng.randint(0, 3) * pm) // pm * pm)
+                limit = max(pm, (ref + sgn * rng.randint(2, 9) * pm) // pm * pm)
         a = min(max(a, 0 if rng.random() < 0.03 else 1), 900)
         r = {"type": ty, "op": op, "pair": p, "amount": a, "limit": limit, "stop": stop,
              "ab": cfg["lendMode"] == "margin" and rng.random() < 0.5, "ar": rng.random() < 0.3,
@@ -451,6 +474,26 @@ class Driver:
         if rng.random() < 0.02 and ty in ("limit", "stoplimit"):
             r["limit"] = 0
         return [{"kind": "create_order", "arg": r}]
+
+
+def _req(**k):
+    return dict(dict(type="market", op="buy", pair=1, amount=1, limit=0, stop=0, ab=False, ar=False, offgrid=False), **k)
+
+
+def corpus() -> List[dict]:
+    """Directed scripts for histories that random generation reaches rarely."""
+    out = []
+    # a stop-limit order whose stop is reached in a bar that does not reach its limit, filled later with maximum slippage
+    for op, stop, limit, b2, b3 in (("buy", 100, 101, (99, 100, 98, 100), (100, 110, 100, 105)),
+                                    ("sell", 100, 99, (101, 102, 100, 100), (100, 100, 90, 95))):
+        cfg = base_cfg(init={"BTC": 1000, "USD": 100000}, liqMode="share", vlN=1, vlD=4, vs=1, impactPct=10, impact=True)
+        first = (99, 99, 98, 99) if op == "buy" else (101, 102, 101, 101)
+        out.append({"cfg": cfg, "steps": [
+            {"kind": "bar", "arg": dict(zip("ohlc", first), p=1, t=1, v=100000)},
+            {"kind": "create_order", "arg": _req(type="stoplimit", op=op, amount=100, stop=stop, limit=limit)},
+            {"kind": "bar", "arg": dict(zip("ohlc", b2), p=1, t=2, v=100000)},
+            {"kind": "bar", "arg": dict(zip("ohlc", b3), p=1, t=3, v=400)}]})
+    return out
 
 
 def run_random(payload) -> dict:
@@ -464,7 +507,7 @@ def run_random(payload) -> dict:
 
 
 # ------------------------------------------------------------------ the check ------------------------------------
-PROFILE_FOR = {"C01": "mixed", "C02": "margin", "C04": "liquidity", "C05": "mixed", "C06": "mixed", "C07": "margin",
+PROFILE_FOR = {"C01": "mixed", "C02": "margin", "C04": "slip", "C05": "mixed", "C06": "mixed", "C07": "margin",
                "C08": "liquidity", "C09": "fees", "C10": "margin", "C11": "margin"}
 
 
@@ -529,6 +572,7 @@ def check(rep: Report, tier: str, seed: int, prop: str = None):
                 lift = {"BTC": rng.choice([0, 2, 5]), "ETH": rng.choice([0, 3]), "USD": rng.choice([0, 1, 4])}
             nb = rng.choice([8, 15, 30]) if quick or rng.random() < 0.9 else 320
             jobs.append(("random", (rng.getrandbits(40), profile if rng.random() < 0.7 else "mixed", nb, lift)))
+        jobs += [("script", sc) for sc in corpus()]
         traces = run_jobs(jobs)
         slimmed = [slim(tr, i + 1) for i, tr in enumerate(traces)]
         verdicts = validate(slimmed, wd, rep)
